@@ -2337,8 +2337,9 @@ impl<'input, T: Input> Scanner<'input, T> {
                 self.input.lookahead(2);
             }
 
-            // check indentation level
-            if self.flow_level == 0 && (self.mark.col as isize) < indent {
+            // check indentation level (inside a flow collection the scalar ends too: the line
+            // that is not indented deeper than the enclosing block is rejected as the next token)
+            if (self.mark.col as isize) < indent {
                 break;
             }
         }
